@@ -74,6 +74,9 @@ func GenParams(t *rapid.T, p *Pkg, op *Op, decls []ParamDecl) (reflect.Value, []
 	v := reflect.New(op.ParamsType).Elem()
 	g := &ValGen{T: t, Doc: p.Doc}
 	var raw []byte
+	if decls == nil {
+		decls, _ = OpParams(op)
+	}
 	for i := 0; i < op.ParamsType.NumField(); i++ {
 		sf := op.ParamsType.Field(i)
 		f := v.Field(i)
@@ -90,6 +93,12 @@ func GenParams(t *rapid.T, p *Pkg, op *Op, decls []ParamDecl) (reflect.Value, []
 				// a set-but-empty optional array is equivalent to unset: generate it unset
 				if isOptionStruct(ff.Type()) && ff.Field(0).Bool() && ff.Field(1).Kind() == reflect.Slice && ff.Field(1).Len() == 0 {
 					ff.Set(reflect.Zero(ff.Type()))
+				}
+			}
+			// a parameter with a Go time layout can only carry what the layout can express
+			for _, d := range decls {
+				if d.OK && d.Group == sf.Name && d.Prim.Layout() != "" && d.Field < f.NumField() {
+					FitTimesToLayout(f.Field(d.Field), d.Prim.Layout())
 				}
 			}
 		case "Body":
